@@ -85,6 +85,9 @@ struct Val
         }
         return *this;
     }
+    // equality comparable, like the value types of the project's own tests (a moved-from Val equals nothing)
+    bool operator==(const Val& o) const { return p != nullptr && o.p != nullptr && *p == *o.p; }
+    bool operator!=(const Val& o) const { return !(*this == o); }
     ~Val()
     {
         delete p;
